@@ -240,4 +240,45 @@ PROPS = {
         'trusted_base': ['verif hook stepper for limit'],
         'assumptions': [],
     },
+    'C02': {
+        'lean_targets': ['Cqos.Props.C02'],
+        'theorems': ['Cqos.C02.step_hinv', 'Cqos.C02.run_hinv', 'Cqos.C02.c02_fifo', 'Cqos.C02.c02_v2_no_drop',
+                     'Cqos.C02.c02_subsequence', 'Cqos.C02.c02_tag', 'Cqos.C02.c02_simple'],
+        'runs': [{'cmd': 'stepper', 'args': ['-family', 'mixed']}, {'cmd': 'stepper', 'args': ['-family', 'terminate']},
+                 {'cmd': 'stepper', 'args': ['-family', 'dynamic']}],
+        'monitor_prefix': ['C02'],
+        'level': 'proof',
+        'level_text': ('Lean theorems on the history variables of the scheduler machine (arrived, taken, delivered, dropped) for every '
+                       'action list and every divider: per input channel, delivered ++ still-queued = written (no loss, duplication, '
+                       'reordering, nothing invented) whenever no send was aborted, which is always the case in v2; in general the '
+                       'deliveries are an in-order sub-sequence of what was received; every delivery carries the priority under which '
+                       'the channel it was received from is registered at that moment and is the oldest waiting item of that channel'),
+        'level_note': 'trusted: correspondence by differential stepping (exact equality of actual/tactic/strategic/priorities/drained/output after each op); unbuffered inputs only in their deterministic states; New/main/loop glue by black-box runs and facts',
+        'rule': 'stepper scripts (families mixed, terminate, dynamic); the monitor matches every delivered item against the per-channel written sequence',
+        'trusted_base': ['Go channels as FIFO queues'],
+        'assumptions': [],
+    },
+    'C15': {
+        'lean_targets': ['Cqos.Props.C15'],
+        'theorems': ['Cqos.C15.safeDivide_err_iff', 'Cqos.C15.round_division_err_iff', 'Cqos.C15.c15_failsafe_step',
+                     'Cqos.C15.c15_failsafe_run', 'Cqos.C15.c15_calc_fault', 'Cqos.C15.c15_recalc_fault',
+                     'Cqos.C15.c15_base_fault_iff', 'Cqos.C15.c15_drain_progress', 'Cqos.C15.wf_step', 'Cqos.C15.wf_run',
+                     'Cqos.C15.c15_args_v2', 'Cqos.C15.c15_args_v1', 'Cqos.C15.c15_args_sublist_calc',
+                     'Cqos.C15.c15_args_sublist_recalc', 'Cqos.C15.c15_new_divider_bad', 'Cqos.C15.c15_new_too_small',
+                     'Cqos.C15.c15_unfixed_counterexample'],
+        'runs': [{'cmd': 'stepper', 'args': ['-family', 'faulty']}, {'cmd': 'pure', 'args': ['-family', 'c18']}],
+        'monitor_prefix': ['C15'],
+        'level': 'proof',
+        'level_text': ('Lean theorems for every action list and every (faulty, stateful) divider: each recorded divider call has a '
+                       'strictly decreasing priority list that is a sub-list of the registered priorities and a dividend <= H (v1 and '
+                       'v2, across AddInput/RemoveInput); safeDivide rejects exactly a non-zero total whose increase differs from the '
+                       'dividend; a rejected round division moves the machine to drain(error), after which no delivery is ever enabled, '
+                       'the error is kept, and the machine terminates once in-flight items are released; prepare returns ErrDividerBad / '
+                       'ErrHandlersQuantityTooSmall exactly as stated. Tied by fault-injecting dividers in the stepper (over/under/zero at '
+                       'call k, listed or unlisted key) whose wrapper checks the arguments of every real call'),
+        'level_note': 'trusted: correspondence by differential stepping (exact equality of actual/tactic/strategic/priorities/drained/output after each op); unbuffered inputs only in their deterministic states; New/main/loop glue by black-box runs and facts',
+        'rule': 'stepper family faulty (fault kind x call index 0..6 x key) + prepare over the C18 family',
+        'trusted_base': ['the Go fault-injecting wrapper mirrors the Lean one (mkDiv)'],
+        'assumptions': ['H and totals < 2^63 (the unsigned difference after-before does not wrap onto the dividend)'],
+    },
 }
